@@ -134,8 +134,54 @@ def rule_js_handback(check):
     check.expect(len(writes) == 1, R, R + "/single-write", js.loc(m), "exactly one write to the response", "%d writes to the response object" % len(writes))
 
 
+def rule_metrics_present(check):
+    R = "METRICS-PRESENT"
+    check.rule(R, "the JS hand-back keys on metrics.status, so every successful rewrite must carry metrics: transform_js always returns Some(transform_status), and get_metrics maps Some(status) to Some(Metrics) unconditionally (None only for None)")
+    prog = check.prog
+    t = prog.fn("rewriter::transform_js")
+    lits = [n for n in hir.walk(t.body) if n.get("k") == "Struct" and (n["res"].get("path") or "").endswith("RewrittenOutput")]
+    check.floor(R, "RewrittenOutput constructions in transform_js", len(lits), 2)
+    for n in lits:
+        e = [hir.peel(x["e"]) for x in n["fields"] if x["name"] == "transform_status"][0]
+        ok = e.get("k") == "Call" and (hir.peel(e["f"]).get("res", {}).get("ctor_path") or "").split("::")[-1] == "Some"
+        arm = [hir.pat_variant(c["pat"]).split("::")[-1] for c in t.conds_at(n) if c["t"] == "pat" and c["v"] and isinstance(hir.pat_variant(c["pat"]), str) and "Status::" in hir.pat_variant(c["pat"])]
+        check.expect(ok, R, "%s/status-some/%s" % (R, arm[0] if arm else "?"), hir.loc(n), "transform_status: Some(..)", "a successful rewrite result carries no transform status (no metrics, so the JS wrapper cannot recognise a not-modified result)")
+    g = prog.fn("lib_wasm::get_metrics")
+    ms = [n for n in hir.walk(g.body) if n.get("k") == "Struct" and (n["res"].get("path") or "").endswith("Metrics")]
+    check.floor(R, "Metrics constructions", len(ms), 1)
+    for n in ms:
+        conds = [c for c in g.conds_at(n) if c["t"] != "closure"]
+        in_closure = [c for c in g.conds_at(n) if c["t"] == "closure"]
+        extra = []
+        for c in conds:
+            if c["t"] == "pat" and c["v"] and str(hir.pat_variant(c["pat"])).split("::")[-1] == "Some" and hir.local_of(c["scrut"]) and g.bindings()[hir.local_of(c["scrut"])[0]]["origin"][:2] == ("param", 0):
+                continue
+            extra.append(hir.cond_str(c))
+        chain_bad = []
+        if in_closure:
+            cl = in_closure[-1]["node"]
+            call = g.parent(cl)
+            while call is not None and not hir.is_call(call):
+                call = g.parent(call)
+            x = call
+            names = []
+            while x is not None and x.get("k") == "MethodCall":
+                names.append(x["method"])
+                x = hir.peel(x["recv"])
+            root_ok = hir.local_of(x) and g.bindings()[hir.local_of(x)[0]]["origin"][:2] == ("param", 0)
+            chain_bad = [m for m in names if m not in ("map", "as_ref", "as_mut", "take")] + ([] if root_ok else ["<not the status parameter>"])
+        check.expect(not extra and not chain_bad, R, R + "/always-for-some", hir.loc(n), "Some(status) -> Some(Metrics) unconditionally", "get_metrics drops the metrics of some results (%s): main.js then hands back empty content for a not-modified file" % "; ".join(extra + chain_bad))
+    rw = prog.fn("lib_wasm::Rewriter::rewrite")
+    res = [n for n in hir.walk(rw.body) if n.get("k") == "Struct" and (n["res"].get("path") or "").endswith("lib_wasm::Result")]
+    for n in res:
+        e = [hir.peel(x["e"]) for x in n["fields"] if x["name"] == "metrics"][0]
+        ok = hir.is_call(e) and hir.callee_name(e) == "get_metrics"
+        check.expect(ok, R, R + "/result-metrics", hir.loc(n), "Result.metrics = get_metrics(..)", "Result.metrics is %s" % hir.describe(e))
+
+
 def run(check):
     check.guarded("PRINT-GATE", rule_print_gate)
+    check.guarded("METRICS-PRESENT", rule_metrics_present)
     check.guarded("MODIFIED-HOOK", S.rule_modified_implies_hook)
     check.guarded("COUNT-ONCE", c15.rule_count_once)
     check.guarded("PROLOGUE-TRAILER", rule_prologue_trailer)
